@@ -70,10 +70,11 @@ void gen_plan() {
                 int r = sim::rnd(12);
                 if (r < 2) o.k = OP_YIELD;
                 else if (r == 2 && with_shutdown) { o.k = OP_SHUTDOWN; o.target = -1; }   // self
-                else { o.k = OP_SLEEP; o.inf = sim::rnd(14) == 0; o.us = D_US[sim::rnd(sizeof D_US / sizeof D_US[0])]; }
+                else { o.k = OP_SLEEP; o.inf = sim::rnd(14) == 0; o.us = D_US[sim::rnd(sizeof D_US / sizeof D_US[0])];
+                       if (with_shutdown && sim::rnd(2)) o.us = D_US[13 + sim::rnd(4)]; }    // long sleeps: a missed shutdown mark is visible
             } else {
                 int r = sim::rnd(10);
-                if (r == 0 && with_shutdown) { o.k = OP_SHUTDOWN; o.target = sim::rnd(n_sleepers); }
+                if (r < 4 && with_shutdown) { o.k = OP_SHUTDOWN; o.target = sim::rnd(n_sleepers); }
                 else { o.k = OP_INTR; o.target = sim::rnd(n_sleepers); o.eno = EN[sim::rnd(5)]; }
                 o.pause_us = D_US[sim::rnd(14)];
             }
